@@ -93,4 +93,24 @@ def c13NoPositions (ss : List Stmt) : Check :=
 def c13Same (withOrder ignoring : List Stmt) : Check :=
   check (withOrder.map stripPosition == ignoring) "the statements under the two settings of the option differ by more than the positional clause"
 
+/-- the quoted parts of a text, in order: what stands between two quote characters of one kind (`'…'` string
+    literals — defaults, comments, enum labels —, `` `…` `` and `"…"` identifiers), quotes included -/
+def quotedParts (cs : List Char) : List String :=
+  go cs none [] []
+where
+  go : List Char → Option Char → List Char → List String → List String
+    | [], _, _, acc => acc.reverse
+    | c :: rest, none, _, acc =>
+      if c == '\'' || c == '`' || c == '"' then go rest (some c) [c] acc else go rest none [] acc
+    | c :: rest, some q, cur, acc =>
+      if c == q then go rest none [] (String.ofList (c :: cur).reverse :: acc) else go rest (some q) (c :: cur) acc
+
+/-- C10: two printouts of one migration under the two keyword-case options are equal up to ASCII case, and equal
+    exactly inside quotes (identifiers, string literals, comments) -/
+def c10CaseOnly (a b : String) : Check := do
+  let low := fun (s : String) => String.ofList (s.toList.map Char.toLower)
+  check (low a == low b) "the printouts under the two keyword-case options differ by more than letter case"
+  check (quotedParts a.toList == quotedParts b.toList)
+    s!"quoted text (identifier, string literal, enum label or comment) differs between the two keyword-case options: {(quotedParts a.toList).zip (quotedParts b.toList) |>.find? (fun p => p.1 != p.2)}"
+
 end Sqlize.Spec
